@@ -81,9 +81,24 @@ def opHooks (l : Line) : Except String String := do
   | some (_, i) => pure s!"refused at={i}\trefused"
   | none => pure s!"built n={es.length}\tbuilt"
 
+/-- `cfg.frontend proto= addr= https= tls= routes=` -/
+def opFrontend (l : Line) : Except String String := do
+  let ak (s : String) : Config.AddrKind := if s == "free" then .free else if s == "busy" then .busy else .absent
+  let tk : Config.TlsKind := match l.get "tls" with
+    | "good" => .good | "cert-only" => .oneOfTwo | "missing-file" => .unloadable | _ => .none
+  let routes ← l.bool "routes"
+  let r := if l.get "proto" == "udp" then Config.udpNewFrontend (ak (l.get "addr"))
+           else Config.httpNewFrontend (ak (l.get "addr")) (ak (l.get "https")) tk routes
+  match r with
+  | .built => pure "built stopped=1\tbuilt"
+  | .refused left =>
+    if l.get "proto" == "udp" then pure "refused\trefused"
+    else pure (s!"refused http_port_released={if l.get "addr" == "free" then (if left then "0" else "1") else "-"}\trefused")
+
 def handle (l : Line) : Option (Except String String) :=
   match l.op with
   | "cfg.validate" => some (opValidate l)
+  | "cfg.frontend" => some (opFrontend l)
   | "cfg.new" => some (opNew l)
   | "cfg.hooks" => some (opHooks l)
   | "cfg.store_bg" => some (opStoreBG l)
